@@ -231,11 +231,14 @@ func (m *runtimeContextManager) requireCPU(cpuAmount uint64) {
 		}
 		m.TerminateContext("CPU limit of %d exceeded", m.hardLimits.Cpu)
 	}
+	// Record the CPU before looking at the clock: if the time is up the
+	// context is terminated, but what was used must still be accounted for
+	// (e.g. when this is a parent being charged for a context that has ended).
+	m.usedResources.Cpu = cpuUsed
 	if m.trackTime && m.nextCpuThreshold <= cpuUsed {
 		m.nextCpuThreshold = cpuUsed + cpuThresholdIncrement
 		m.updateTimeUsed()
 	}
-	m.usedResources.Cpu = cpuUsed
 }
 
 func (m *runtimeContextManager) UnusedCPU() uint64 {
